@@ -223,6 +223,37 @@ func (sr *StyleResolver) applyStyleDef(resolved *ResolvedStyle, def *styleDefXML
 
 // detectHeading determines if a style represents a heading.
 func (sr *StyleResolver) detectHeading(def *styleDefXML, resolved *ResolvedStyle) (bool, int) {
+	// The style itself decides first; what it does not state it inherits from
+	// its basedOn ancestors (nearest first), like every other paragraph
+	// property: a style based on "Heading 2" is a level-2 heading unless it
+	// sets its own outline level.
+	chain := sr.buildInheritanceChain(def.StyleID) // base ... derived
+	for i := len(chain) - 1; i >= 0; i-- {
+		d, ok := sr.styles[chain[i]]
+		if !ok {
+			if isHeading, level := detectBuiltInHeading(chain[i]); isHeading {
+				return true, level
+			}
+			continue
+		}
+		if isHeading, level := headingByDefinition(d); isHeading {
+			return true, level
+		}
+	}
+
+	// Heuristic: large, bold text at start of document section might be heading
+	// (This is a fallback for documents without proper heading styles)
+	if resolved.Bold && resolved.FontSize >= 14 {
+		return true, estimateHeadingLevel(resolved.FontSize)
+	}
+
+	return false, 0
+}
+
+// headingByDefinition reports whether a single style definition (without its
+// ancestors) declares a heading: built-in heading id, "heading N" name or an
+// outline level.
+func headingByDefinition(def *styleDefXML) (bool, int) {
 	// Check for built-in heading style ID
 	if isHeading, level := detectBuiltInHeading(def.StyleID); isHeading {
 		return true, level
@@ -246,12 +277,6 @@ func (sr *StyleResolver) detectHeading(def *styleDefXML, resolved *ResolvedStyle
 		if level >= 0 && level <= 8 {
 			return true, level + 1 // OutlineLvl is 0-based
 		}
-	}
-
-	// Heuristic: large, bold text at start of document section might be heading
-	// (This is a fallback for documents without proper heading styles)
-	if resolved.Bold && resolved.FontSize >= 14 {
-		return true, estimateHeadingLevel(resolved.FontSize)
 	}
 
 	return false, 0
